@@ -10,6 +10,10 @@ Full-strength statements (all proved; nothing is `_partial`):
   where the previous one ends.  `C18_cover_exact`: hence every hour of `[start, end)` lies in
   exactly one of the periods and every other hour in none (disjoint, covering exactly the range).
   `C18_units`: every emitted view is a view of a unit of the quantum (a view `SetBit` writes).
+* `C18_views_of_timestamp`: a timestamp has one of its quantum views (the views `SetBit` writes for
+  it) among the views read iff it lies in `[start, end)`.  `C18_query`: hence, for the field built
+  by any history of timestamped sets, `Row(f=r, from=start, to=end)` returns exactly the columns
+  set with a timestamp in the range.
 * `C18_name_roundtrip`: `timeOfView(viewByTimeUnit(t, u))` is the start of `t`'s period of unit
   `u`, and with `adj` the start of the next period, for every year 0..9999, month, day, hour 0–23
   and unit.  (Before "fix: timeOfView parses hour views 13-23" the hour layout was the 12-hour
@@ -21,9 +25,9 @@ that `nextYearGTE` is true whenever `next.Year() == end.Year()`? — is decided 
 it is false when the walk-up loop leaves early and stays false while the cursor advances
 (`TY_mono`), so the year branch only ever fires at a cursor the walk-up loop aligned to January 1st.
 -/
-import PV.C18.Lemmas5
+import PV.C18.Lemmas7
 namespace PV.C18
-open Spec (floorU nextU periodHours yearLen alignedTo coverChain coverCount coverOK interval denote)
+open Spec (floorU nextU periodHours yearLen alignedTo coverChain coverCount coverOK interval denote Ev)
 
 /-! ### Names -/
 
@@ -65,275 +69,6 @@ theorem C18_name_denotes (t : Civil) (ht : t.valid) (hy : t.y ≤ 9999) (u : U) 
     interval (viewByTimeUnit t u) =
       some (hourIndex (floorU u t), hourIndex (floorU u t) + periodHours u (floorU u t)) := by
   unfold interval; rw [denote_name ht hy u]
-
-/-! ### The walk-down loop -/
-
-theorem walkDown_cover {q : Quantum} {e : Civil} (c : Ctx q e) :
-    ∀ (fuel : Nat) (t : Civil), WD q e t → hourIndex e - hourIndex t ≤ fuel →
-      coverChain (hourIndex t) (hourIndex e) (walkDown q e fuel t) = true := by
-  intro fuel
-  induction fuel with
-  | zero =>
-    intro t w hf
-    have := (hourIndex_le_iff w.tv c.ev).mpr w.le
-    simp only [walkDown, coverChain, beq_iff_eq]; omega
-  | succ fuel ih =>
-    intro t w hf
-    have hle := (hourIndex_le_iff w.tv c.ev).mpr w.le
-    have hty : t.y ≤ 9999 := Nat.le_trans (year_le w.le) c.ey
-    unfold walkDown
-    by_cases hb : before t e = true
-    · have hlt := (before_iff w.tv c.ev).mp hb
-      have hlt' := hourIndex_mono w.tv c.ev hlt
-      simp only [hb, Bool.not_true, Bool.false_eq_true, if_false]
-      -- year
-      by_cases hY : (q.hasYear && nextYearGTE t e) = true
-      · rw [if_pos hY]
-        simp only [Bool.and_eq_true] at hY
-        have hn := (nextYearGTE_iff w.tv c.ev).mp hY.2
-        obtain ⟨hm, hd, h0⟩ := w.qY hY.1 hn
-        have hi := interval_emit w.tv hty .Y ⟨hm, hd, h0⟩
-        have hs := hourIndex_addYear w.tv hm hd
-        have yl := yearLen_pos t.y
-        apply coverChain_cons hi (by simp only [periodHours]; omega)
-        simp only [periodHours]; rw [← hs]
-        exact ih _ (WD_year w hY.1 hn) (by omega)
-      · rw [if_neg hY]
-        have nY : q.hasYear = true → lexLt e (TY t) := by
-          intro h; apply Classical.byContradiction; intro hc
-          exact hY (by simp [h, (nextYearGTE_iff w.tv c.ev).mpr hc])
-        -- month
-        by_cases hM : (q.hasMonth && nextMonthGTE t e) = true
-        · rw [if_pos hM]
-          simp only [Bool.and_eq_true] at hM
-          have hn := (nextMonthGTE_iff w.tv c.ev).mp hM.2
-          obtain ⟨hd, h0⟩ := w.qM hM.1 hn
-          have hi := interval_emit w.tv hty .M ⟨hd, h0⟩
-          have hs := hourIndex_addMonth w.tv hd
-          have dl := daysIn_bounds t.y t.m
-          apply coverChain_cons hi (by simp only [periodHours]; omega)
-          simp only [periodHours]; rw [← hs]
-          exact ih _ (WD_month w nY hM.1 hn) (by omega)
-        · rw [if_neg hM]
-          have nM : q.hasMonth = true → lexLt e (TM t) := by
-            intro h; apply Classical.byContradiction; intro hc
-            exact hM (by simp [h, (nextMonthGTE_iff w.tv c.ev).mpr hc])
-          -- day
-          by_cases hD : (q.hasDay && nextDayGTE t e) = true
-          · rw [if_pos hD]
-            simp only [Bool.and_eq_true] at hD
-            have hn := (nextDayGTE_iff w.tv c.ev).mp hD.2
-            have h0 := w.qD hD.1 hn
-            have hi := interval_emit w.tv hty .D h0
-            have hs := hourIndex_addDay w.tv
-            apply coverChain_cons hi (by simp only [periodHours]; omega)
-            simp only [periodHours]; rw [← hs]
-            exact ih _ (WD_day w nY nM hD.1 hn) (by omega)
-          · rw [if_neg hD]
-            have nD : q.hasDay = true → lexLt e (TD t) := by
-              intro h; apply Classical.byContradiction; intro hc
-              exact hD (by simp [h, (nextDayGTE_iff w.tv c.ev).mpr hc])
-            -- hour
-            by_cases hH : q.hasHour = true
-            · rw [if_pos hH]
-              have hi := interval_emit w.tv hty .H trivial
-              have hs := hourIndex_addHour w.tv
-              apply coverChain_cons hi (by simp only [periodHours]; omega)
-              simp only [periodHours]; rw [← hs]
-              exact ih _ (WD_hour c.ev w hlt nY nM nD hH) (by omega)
-            · exfalso
-              have hH' : q.hasHour = false := by cases h : q.hasHour <;> simp_all
-              rcases finest_fits c w hlt hH' with ⟨a, b⟩ | ⟨a, b⟩ | ⟨a, b⟩
-              · exact b (nD a)
-              · exact b (nM a)
-              · exact b (nY a)
-    · have : ¬ hourIndex t < hourIndex e := by simpa [before] using hb
-      have hb' : before t e = false := by simpa using hb
-      simp only [hb', Bool.not_false, if_true, coverChain, beq_iff_eq]; omega
-
-/-! ### The walk-up loop -/
-
-theorem walkUp_cover {q : Quantum} {e : Civil} (c : Ctx q e) :
-    ∀ (fuel : Nat) (t : Civil), t.valid → ¬ lexLt e t → alignedTo q t = true →
-      hourIndex e - hourIndex t ≤ fuel →
-      coverChain (hourIndex t) (hourIndex (walkUp q e fuel t).2) (walkUp q e fuel t).1 = true ∧
-      WD q e (walkUp q e fuel t).2 ∧ hourIndex t ≤ hourIndex (walkUp q e fuel t).2 := by
-  intro fuel
-  induction fuel with
-  | zero =>
-    intro t ht hle ha hf
-    have h1 := (hourIndex_le_iff ht c.ev).mpr hle
-    have hge : ¬ lexLt t e := by
-      intro h; have := hourIndex_mono ht c.ev h; omega
-    simp only [walkUp, coverChain, beq_self_eq_true, true_and]
-    exact ⟨WD_end ht hle hge ha, Nat.le_refl _⟩
-  | succ fuel ih =>
-    intro t ht hle ha hf
-    have h1 := (hourIndex_le_iff ht c.ev).mpr hle
-    have hty : t.y ≤ 9999 := Nat.le_trans (year_le hle) c.ey
-    unfold walkUp
-    by_cases hb : before t e = true
-    · have hlt := (before_iff ht c.ev).mp hb
-      have hlt' := hourIndex_mono ht c.ev hlt
-      simp only [hb, Bool.not_true, Bool.false_eq_true, if_false]
-      -- hour level
-      by_cases bH : (q.hasHour && !nextDayGTE t e) = true
-      · rw [if_pos bH]
-        simp only [Bool.and_eq_true, Bool.not_eq_true'] at bH
-        have nD : lexLt e (TD t) := by
-          apply Classical.byContradiction; intro hc
-          have := (nextDayGTE_iff ht c.ev).mpr hc; rw [bH.2] at this; cases this
-        simp only [coverChain, beq_self_eq_true, true_and]
-        exact ⟨{ tv := ht, le := hle, fin := ha,
-                 qY := fun _ h => absurd (B2 ht (B1 ht nD)) h,
-                 qM := fun _ h => absurd (B1 ht nD) h,
-                 qD := fun _ h => absurd nD h }, Nat.le_refl _⟩
-      · rw [if_neg bH]
-        by_cases eH : (q.hasHour && t.h != 0) = true
-        · rw [if_pos eH]
-          simp only [Bool.and_eq_true] at eH
-          have hi := interval_emit ht hty .H trivial
-          have hs := hourIndex_addHour ht
-          have hle' := fitH ht c.ev hlt
-          have ha' : alignedTo q (addHour t) = true := by unfold alignedTo; rw [eH.1]; rfl
-          obtain ⟨r1, r2, r3⟩ := ih (addHour t) (addHour_valid ht) hle' ha' (by omega)
-          simp only
-          refine ⟨?_, r2, by omega⟩
-          apply coverChain_cons hi (by simp only [periodHours]; omega)
-          simp only [periodHours]; rw [← hs]; exact r1
-        · rw [if_neg eH]
-          -- past the hour level: if the quantum has hours, nextDayGTE holds and t.h = 0
-          have pH : q.hasHour = true → ¬ lexLt e (TD t) ∧ t.h = 0 := by
-            intro h
-            constructor
-            · intro hc
-              apply bH
-              have : nextDayGTE t e = false := by
-                cases hx : nextDayGTE t e
-                · rfl
-                · exact absurd hc ((nextDayGTE_iff ht c.ev).mp hx)
-              simp [h, this]
-            · apply Classical.byContradiction; intro hc
-              apply eH; simp [h, hc]
-          -- day level
-          by_cases bD : (q.hasDay && !nextMonthGTE t e) = true
-          · rw [if_pos bD]
-            simp only [Bool.and_eq_true, Bool.not_eq_true'] at bD
-            have nM : lexLt e (TM t) := by
-              apply Classical.byContradiction; intro hc
-              have := (nextMonthGTE_iff ht c.ev).mpr hc; rw [bD.2] at this; cases this
-            have h0 : t.h = 0 := LD c.qv ha bD.1 (fun h => (pH h).2)
-            simp only [coverChain, beq_self_eq_true, true_and]
-            exact ⟨{ tv := ht, le := hle, fin := ha,
-                     qY := fun _ h => absurd (B2 ht nM) h,
-                     qM := fun _ h => absurd nM h,
-                     qD := fun _ _ => h0 }, Nat.le_refl _⟩
-          · rw [if_neg bD]
-            by_cases eD : (q.hasDay && t.d != 1) = true
-            · rw [if_pos eD]
-              simp only [Bool.and_eq_true] at eD
-              have h0 : t.h = 0 := LD c.qv ha eD.1 (fun h => (pH h).2)
-              have hi := interval_emit ht hty .D h0
-              have hs := hourIndex_addDay ht
-              have hfit : ¬ lexLt e (TD t) := by
-                cases hh : q.hasHour
-                · have e0 : e.h = 0 := LD c.qv c.ea eD.1 (fun h => by rw [hh] at h; cases h)
-                  exact fitD ht c.ev h0 e0 hlt
-                · exact (pH hh).1
-              have hle' : ¬ lexLt e (addDay t) := by rw [addDay_TD ht h0]; exact hfit
-              have hh' : (addDay t).h = 0 := by rw [addDay_h ht]; exact h0
-              have ha' : alignedTo q (addDay t) = true :=
-                alignedTo_of (fun _ => hh') (fun _ h => by rw [h] at eD; cases eD.1)
-                  (fun _ h => by rw [h] at eD; cases eD.1)
-              obtain ⟨r1, r2, r3⟩ := ih (addDay t) (addDay_valid ht) hle' ha' (by omega)
-              simp only
-              refine ⟨?_, r2, by omega⟩
-              apply coverChain_cons hi (by simp only [periodHours]; omega)
-              simp only [periodHours]; rw [← hs]; exact r1
-            · rw [if_neg eD]
-              have pD : q.hasDay = true → ¬ lexLt e (TM t) ∧ t.d = 1 := by
-                intro h
-                constructor
-                · intro hc
-                  apply bD
-                  have : nextMonthGTE t e = false := by
-                    cases hx : nextMonthGTE t e
-                    · rfl
-                    · exact absurd hc ((nextMonthGTE_iff ht c.ev).mp hx)
-                  simp [h, this]
-                · apply Classical.byContradiction; intro hc
-                  apply eD; simp [h, hc]
-              -- month level
-              by_cases bM : (q.hasMonth && !nextYearGTE t e) = true
-              · rw [if_pos bM]
-                simp only [Bool.and_eq_true, Bool.not_eq_true'] at bM
-                have nY : lexLt e (TY t) := by
-                  apply Classical.byContradiction; intro hc
-                  have := (nextYearGTE_iff ht c.ev).mpr hc; rw [bM.2] at this; cases this
-                have hdm := LM c.qv ha bM.1 (fun h => (pH h).2) (fun h => (pD h).2)
-                simp only [coverChain, beq_self_eq_true, true_and]
-                exact ⟨{ tv := ht, le := hle, fin := ha,
-                         qY := fun _ h => absurd nY h,
-                         qM := fun _ _ => hdm,
-                         qD := fun _ _ => hdm.2 }, Nat.le_refl _⟩
-              · rw [if_neg bM]
-                by_cases eM : (q.hasMonth && t.m != 1) = true
-                · rw [if_pos eM]
-                  simp only [Bool.and_eq_true] at eM
-                  obtain ⟨hd, h0⟩ := LM c.qv ha eM.1 (fun h => (pH h).2) (fun h => (pD h).2)
-                  have hi := interval_emit ht hty .M ⟨hd, h0⟩
-                  have hs := hourIndex_addMonth ht hd
-                  have dl := daysIn_bounds t.y t.m
-                  have hfit : ¬ lexLt e (TM t) := by
-                    cases hh : q.hasDay
-                    · have f := flags q c.qv
-                      have hH : q.hasHour = false := by
-                        cases h4 : q.hasHour
-                        · rfl
-                        · cases h1 : q.hasYear <;> simp [h1, hh, h4, eM.1] at f
-                      obtain ⟨ed, e0⟩ := LM c.qv c.ea eM.1 (fun h => by rw [hH] at h; cases h)
-                        (fun h => by rw [hh] at h; cases h)
-                      exact fitM ht c.ev hd h0 ed e0 hlt
-                    · exact (pD hh).1
-                  have e1 := addMonth_TM ht hd h0
-                  have hle' : ¬ lexLt e (addMonth t) := by rw [e1]; exact hfit
-                  have hv : (addMonth t).valid := by
-                    rw [addMonth_aligned ht hd]
-                    obtain ⟨h1, h2, h3, h4, h5⟩ := ht
-                    have b1 := daysIn_bounds (t.y + 1) 1
-                    have b2 := daysIn_bounds t.y (t.m + 1)
-                    unfold Civil.valid
-                    split <;> simp only <;> omega
-                  have hdd : (addMonth t).d = 1 ∧ (addMonth t).h = 0 := by
-                    rw [addMonth_aligned ht hd, h0]; split <;> exact ⟨rfl, rfl⟩
-                  have ha' : alignedTo q (addMonth t) = true :=
-                    alignedTo_of (fun _ => hdd.2) (fun _ _ => hdd.1)
-                      (fun _ _ h => by rw [h] at eM; cases eM.1)
-                  obtain ⟨r1, r2, r3⟩ := ih (addMonth t) hv hle' ha' (by omega)
-                  simp only
-                  refine ⟨?_, r2, by omega⟩
-                  apply coverChain_cons hi (by simp only [periodHours]; omega)
-                  simp only [periodHours]; rw [← hs]; exact r1
-                · rw [if_neg eM]
-                  -- final break: aligned at every level the quantum has
-                  have pM : q.hasMonth = true → t.m = 1 := by
-                    intro h
-                    apply Classical.byContradiction; intro hc
-                    apply eM; simp [h, hc]
-                  simp only [coverChain, beq_self_eq_true, true_and]
-                  refine ⟨{ tv := ht, le := hle, fin := ha, qY := ?_, qM := ?_, qD := ?_ }, Nat.le_refl _⟩
-                  · intro h _
-                    exact LY c.qv ha h (fun h => (pH h).2) (fun h => (pD h).2) pM
-                  · intro h _
-                    exact LM c.qv ha h (fun h => (pH h).2) (fun h => (pD h).2)
-                  · intro h _
-                    exact LD c.qv ha h (fun h => (pH h).2)
-    · have hn : ¬ hourIndex t < hourIndex e := by simpa [before] using hb
-      have hb' : before t e = false := by simpa using hb
-      have hge : ¬ lexLt t e := by
-        intro h; have := hourIndex_mono ht c.ev h; omega
-      simp only [hb', Bool.not_false, if_true, coverChain, beq_self_eq_true, true_and]
-      exact ⟨WD_end ht hle hge ha, Nat.le_refl _⟩
 
 /-! ### viewsByTimeRange -/
 
@@ -383,43 +118,6 @@ theorem C18_empty_range (q : Quantum) (s e : Civil) (h : hourIndex e ≤ hourInd
   simp only [hfuel]
   split <;> simp [walkUp, walkDown]
 
-/-- Consecutive non-empty periods from `lo` to `hi`: every hour of `[lo, hi)` lies in exactly one
-of them, every other hour in none. -/
-theorem coverChain_count {lo hi : Nat} {vs : List VDigits} (h : coverChain lo hi vs = true) (x : Nat) :
-    coverCount x vs = if lo ≤ x ∧ x < hi then 1 else 0 := by
-  induction vs generalizing lo with
-  | nil =>
-    simp only [coverChain, beq_iff_eq] at h
-    subst h
-    simp only [coverCount]
-    split <;> omega
-  | cons v r ih =>
-    simp only [coverChain] at h
-    cases hv : interval v with
-    | none => simp [hv] at h
-    | some ab =>
-      obtain ⟨a, b⟩ := ab
-      simp only [hv, Bool.and_eq_true, beq_iff_eq, decide_eq_true_eq] at h
-      obtain ⟨⟨rfl, hab⟩, hr⟩ := h
-      have hle : ∀ (lo hi : Nat) (l : List VDigits), coverChain lo hi l = true → lo ≤ hi := by
-        intro lo hi l
-        induction l generalizing lo with
-        | nil => intro h; simp only [coverChain, beq_iff_eq] at h; omega
-        | cons w l ihl =>
-          intro h
-          simp only [coverChain] at h
-          cases hw : interval w with
-          | none => simp [hw] at h
-          | some cd =>
-            obtain ⟨c, d⟩ := cd
-            simp only [hw, Bool.and_eq_true, beq_iff_eq, decide_eq_true_eq] at h
-            have := ihl d h.2
-            omega
-      have hbh := hle b hi r hr
-      simp only [coverCount, hv, ih hr]
-      repeat' split
-      all_goals omega
-
 /-- Disjoint and covering exactly the range: every hour of `[start, end)` is in exactly one of
 the periods read, every hour outside in none. -/
 theorem C18_cover_exact (q : Quantum) (hq : q ∈ validQuanta) (s e : Civil) (hs : s.valid) (he : e.valid)
@@ -429,45 +127,6 @@ theorem C18_cover_exact (q : Quantum) (hq : q ∈ validQuanta) (s e : Civil) (hs
   coverChain_count (C18_cover q hq s e hs he hy hse has hae) x
 
 /-! ### Only views of the quantum's units are read -/
-
-theorem walkDown_units (q : Quantum) (e : Civil) :
-    ∀ (fuel : Nat) (t : Civil), ∀ v ∈ walkDown q e fuel t, ∃ u t', u ∈ q ∧ v = viewByTimeUnit t' u := by
-  intro fuel
-  induction fuel with
-  | zero => intro t v hv; simp [walkDown] at hv
-  | succ fuel ih =>
-    intro t v hv
-    unfold walkDown at hv
-    repeat' split at hv
-    all_goals first
-      | (simp at hv; done)
-      | (rename_i hc
-         rcases List.mem_cons.mp hv with rfl | hv
-         · simp only [Bool.and_eq_true, Quantum.hasYear, Quantum.hasMonth, Quantum.hasDay,
-             Quantum.hasHour, List.contains_iff_mem] at hc
-           first
-             | exact ⟨_, _, hc.1, rfl⟩
-             | exact ⟨_, _, hc, rfl⟩
-         · exact ih _ v hv)
-
-theorem walkUp_units (q : Quantum) (e : Civil) :
-    ∀ (fuel : Nat) (t : Civil), ∀ v ∈ (walkUp q e fuel t).1, ∃ u t', u ∈ q ∧ v = viewByTimeUnit t' u := by
-  intro fuel
-  induction fuel with
-  | zero => intro t v hv; simp [walkUp] at hv
-  | succ fuel ih =>
-    intro t v hv
-    unfold walkUp at hv
-    repeat' split at hv
-    all_goals first
-      | (simp at hv; done)
-      | (rename_i hc
-         simp only at hv
-         rcases List.mem_cons.mp hv with rfl | hv
-         · simp only [Bool.and_eq_true, Quantum.hasMonth, Quantum.hasDay,
-             Quantum.hasHour, List.contains_iff_mem] at hc
-           exact ⟨_, _, hc.1, rfl⟩
-         · exact ih _ v hv)
 
 /-- Every view `viewsByTimeRange` returns is the view of some time for a unit of the quantum —
 a view that `SetBit` writes for that quantum (`viewsByTime`). -/
@@ -482,6 +141,79 @@ theorem C18_units (q : Quantum) (s e : Civil) :
     · simp at hv
   · exact walkDown_units q e _ _ v hv
 
+/-! ### Queries -/
+
+/-- A timestamp has one of its quantum views among the views read iff it lies in the range. -/
+theorem C18_views_of_timestamp (q : Quantum) (hq : q ∈ validQuanta) (s e : Civil) (hs : s.valid) (he : e.valid)
+    (hy : e.y ≤ 9999) (hse : hourIndex s ≤ hourIndex e)
+    (has : alignedTo q s = true) (hae : alignedTo q e = true)
+    (ts : Civil) (hts : ts.valid) (htsy : ts.y ≤ 9999) :
+    (∃ v ∈ viewsByTimeRange s e q, v ∈ viewsByTime ts q) ↔
+      (hourIndex s ≤ hourIndex ts ∧ hourIndex ts < hourIndex e) := by
+  have hc := C18_cover q hq s e hs he hy hse has hae
+  constructor
+  · rintro ⟨v, hv, hvt⟩
+    simp only [viewsByTime, List.mem_map] at hvt
+    obtain ⟨u, _, rfl⟩ := hvt
+    obtain ⟨a, b, hi, h1, h2⟩ := coverChain_mem hc _ hv
+    rw [C18_name_denotes ts hts htsy u] at hi
+    simp only [Option.some.injEq, Prod.mk.injEq] at hi
+    obtain ⟨rfl, rfl⟩ := hi
+    have := period_contains (u := u) hts
+    omega
+  · rintro ⟨h1, h2⟩
+    have hcount := coverChain_count hc (hourIndex ts)
+    rw [if_pos ⟨h1, h2⟩] at hcount
+    obtain ⟨v, hv, a, b, hi, ha, hb⟩ := coverCount_pos (x := hourIndex ts) (vs := viewsByTimeRange s e q) (by rw [hcount]; exact Nat.le_refl 1)
+    refine ⟨v, hv, ?_⟩
+    unfold interval at hi
+    cases hd : denote v with
+    | none => simp [hd] at hi
+    | some uc =>
+      obtain ⟨u, c0⟩ := uc
+      simp only [hd, Option.some.injEq, Prod.mk.injEq] at hi
+      obtain ⟨rfl, rfl⟩ := hi
+      obtain ⟨hvn, hcv, _, hfl⟩ := denote_inv hd
+      have hfloor := floor_of_mem hcv hts hfl ha hb
+      obtain ⟨u', t', hu', hvn'⟩ := C18_units q s e v hv
+      have : u = u' := name_unit (hvn.symm.trans hvn')
+      subst this
+      simp only [viewsByTime, List.mem_map]
+      exact ⟨u, hu', by rw [hvn, ← hfloor, name_floor]⟩
+
+/-- **A time-range Row returns exactly the columns set with a timestamp in the range**: for the
+field built by any history of timestamped sets, every valid quantum and every range aligned to
+its finest unit. -/
+theorem C18_query (q : Quantum) (hq : q ∈ validQuanta) (noStd : Bool) (log : List Ev)
+    (hlog : ∀ ev ∈ log, ∀ ts, ev.ts = some ts → ts.valid ∧ ts.y ≤ 9999)
+    (s e : Civil) (hs : s.valid) (he : e.valid) (hy : e.y ≤ 9999) (hse : hourIndex s ≤ hourIndex e)
+    (has : alignedTo q s = true) (hae : alignedTo q e = true) (r c : Nat) :
+    c ∈ (build q noStd log).rowRange r s e ↔ c ∈ Spec.rowRange log r s e := by
+  have hq0 : (build q noStd log).q ≠ [] := by
+    rw [build_q]; intro h; subst h; simp [validQuanta] at hq
+  unfold Field.rowRange
+  rw [if_neg hq0, build_q, mem_rowOfViews_iff]
+  simp only [Spec.rowRange, mem_spec_sortDedup, List.mem_map, List.mem_filter, Bool.and_eq_true,
+    beq_iff_eq]
+  constructor
+  · rintro ⟨n, hn, hm⟩
+    obtain ⟨v, hv, rfl⟩ := hn
+    obtain ⟨ev, hev, hr, hc, ts, hts, hvt⟩ := (memIn_build q noStd log v r c).mp hm
+    obtain ⟨tv, ty⟩ := hlog ev hev ts hts
+    have := (C18_views_of_timestamp q hq s e hs he hy hse has hae ts tv ty).mp ⟨v, hv, hvt⟩
+    refine ⟨ev, ⟨hev, hr, ?_⟩, hc⟩
+    simp [hts, Spec.inRange, this.1, this.2]
+  · rintro ⟨ev, ⟨hev, hr, hin⟩, hc⟩
+    cases hts : ev.ts with
+    | none => simp [hts] at hin
+    | some ts =>
+      simp only [hts, Spec.inRange, Bool.and_eq_true, decide_eq_true_eq] at hin
+      obtain ⟨tv, ty⟩ := hlog ev hev ts hts
+      obtain ⟨v, hv, hvt⟩ := (C18_views_of_timestamp q hq s e hs he hy hse has hae ts tv ty).mpr hin
+      exact ⟨.tv v, ⟨v, hv, rfl⟩,
+        (memIn_build q noStd log v r c).mpr ⟨ev, hev, hr, hc, ts, hts, hvt⟩⟩
+
+
 /-! ### Non-vacuity -/
 
 /-- A range across a leap day and a year end, quantum YMDH: 17 hour views, 2 day views, 10 month
@@ -495,5 +227,13 @@ example :
   decide
 
 example : timeOfView (viewByTimeUnit ⟨2001, 12, 31, 23⟩ .H) true = some ⟨2002, 1, 1, 0⟩ := by decide
+
+/-- `C18_query` on a concrete history (quantum MDH, range 2000-12-31T23 .. 2001-02-01T00): columns
+1 and 3 are inside (the first and the last hour of the range), 2 and 4 just outside. -/
+example :
+    let log : List Ev := [⟨1, 1, some ⟨2000, 12, 31, 23⟩⟩, ⟨1, 2, some ⟨2000, 12, 31, 22⟩⟩,
+      ⟨1, 3, some ⟨2001, 1, 31, 23⟩⟩, ⟨1, 4, some ⟨2001, 2, 1, 0⟩⟩, ⟨2, 5, some ⟨2001, 1, 15, 12⟩⟩]
+    (build [.M, .D, .H] false log).rowRange 1 ⟨2000, 12, 31, 23⟩ ⟨2001, 2, 1, 0⟩ = [1, 3] ∧
+    Spec.rowRange log 1 ⟨2000, 12, 31, 23⟩ ⟨2001, 2, 1, 0⟩ = [1, 3] := by decide
 
 end PV.C18
